@@ -494,7 +494,15 @@ def _expr_chain(text):
             elif name == "flat_map":
                 path = " ".join(arg.split())
                 prev, e = e, nxt()
-                body.append("let t%d_ = %s_v(%s); for u%d_ in 0..t%d_.len() { let %s = t%d_[u%d_];" % (k, path, prev, k, k, e, k, k))
+                cl = _closure(arg)
+                mcl = re.match(r"^(\w+)\s*\.\s*(\w+)\s*\(\s*\)$", cl[1]) if cl else None
+                if mcl and mcl.group(1) == cl[0].strip():
+                    # `flat_map(|x| x.f())`: the same call as `flat_map(T::f)`, written as a closure
+                    body.append("let t%d_ = %s.%s_v(); for u%d_ in 0..t%d_.len() { let %s = t%d_[u%d_];" % (k, prev, mcl.group(2), k, k, e, k, k))
+                elif cl:
+                    raise ExtractError("R16: flat_map with a closure other than |x| x.f()")
+                else:
+                    body.append("let t%d_ = %s_v(%s); for u%d_ in 0..t%d_.len() { let %s = t%d_[u%d_];" % (k, path, prev, k, k, e, k, k))
                 opens += 1
             elif name in _CONSUMERS:
                 cons = (name, arg)
